@@ -480,8 +480,98 @@ func genHTTP(r *kit.Rand) []string {
 		}
 		lines = append(lines, fmt.Sprintf("httpraw %s %s %s %s %s", ra, m, kit.Esc(t), c, kit.Esc(db)))
 	}
+	// requests that carry MORE than credentials: which handler runs must not depend on it
+	lines = append(lines, genHeaders(r, cred)...)
 	// the URL parameters of a write, against the accounts above plus three of the decisive shapes
 	lines = append(lines, genWriteQueries(r)...)
+	return lines
+}
+
+// ---- extra request headers: the handler that runs is the one whose privilege was checked ----
+
+// header sets a proxy, a browser or an attacker may add (keys beginning with '?' are URL parameters)
+var headerSets = [][][2]string{
+	{{"X-HTTP-Method-Override", "DELETE"}}, {{"X-HTTP-Method-Override", "delete"}}, {{"X-HTTP-Method-Override", "Delete"}},
+	{{"X-HTTP-Method-Override", "PUT"}}, {{"X-HTTP-Method-Override", "PATCH"}}, {{"X-HTTP-Method-Override", "POST"}},
+	{{"X-HTTP-Method-Override", "GET"}}, {{"X-HTTP-Method-Override", "HEAD"}}, {{"X-HTTP-Method-Override", "OPTIONS"}},
+	{{"X-HTTP-Method-Override", "TRACE"}}, {{"X-HTTP-Method-Override", ""}}, {{"x-http-method-override", "DELETE"}},
+	{{"X-HTTP-Method-Override", "GET"}, {"X-HTTP-Method-Override", "DELETE"}},
+	{{"X-Method-Override", "DELETE"}}, {{"X-HTTP-Method", "DELETE"}}, {{"?_method", "DELETE"}}, {{"?_method", "HEAD"}},
+	{{"Content-Type", "application/x-www-form-urlencoded"}, {"?_method", "DELETE"}},
+	{{"X-Original-URL", "/kapacitor/v1/ping"}}, {{"X-Original-URL", "/kapacitor/v1/tasks/x"}}, {{"X-Rewrite-URL", "/kapacitor/v1/ping"}},
+	{{"X-Rewrite-URL", "/kapacitor/v1/tasks"}}, {{"X-Forwarded-Uri", "/kapacitor/v1/debug/vars"}}, {{"X-Forwarded-Prefix", "/kapacitor/v1/debug"}},
+	{{"X-Forwarded-For", "127.0.0.1"}}, {{"X-Forwarded-Host", "localhost"}}, {{"X-Forwarded-Proto", "https"}}, {{"Forwarded", "for=127.0.0.1;proto=https"}},
+	{{"X-Real-IP", "127.0.0.1"}}, {{"X-Forwarded-User", "alice"}}, {{"X-Remote-User", "hroot"}}, {{"X-Forwarded-Method", "DELETE"}},
+	{{"Content-Type", "application/json"}}, {{"Content-Type", "text/plain; charset=utf-8"}}, {{"Content-Type", "multipart/form-data; boundary=x"}},
+	{{"Content-Type", "application/x-www-form-urlencoded"}}, {{"Origin", "http://elsewhere.example"}},
+	{{"Origin", "http://elsewhere.example"}, {"Access-Control-Request-Method", "DELETE"}},
+	{{"Accept-Encoding", "gzip"}}, {{"Connection", "Upgrade"}, {"Upgrade", "h2c"}}, {{"Expect", "100-continue"}},
+}
+
+func headerToken(h [][2]string) string {
+	if len(h) == 0 {
+		return "-"
+	}
+	var parts []string
+	for _, kv := range h {
+		parts = append(parts, kit.Esc(kv[0])+"="+kit.Esc(kv[1]))
+	}
+	return strings.Join(parts, "&")
+}
+
+// genHeaders: accounts holding exactly one kind of privilege on the API (so every pair "privilege checked for one
+// method, handler of another method runs" has an account that tells them apart), every wire method, every header set.
+func genHeaders(r *kit.Rand, cred func() string) []string {
+	var lines []string
+	shapes := []struct {
+		n string
+		g map[string][]int
+	}{
+		{"hread", map[string][]int{"/api": {2}}}, {"hwrite", map[string][]int{"/api": {2, 4}}}, {"hdel", map[string][]int{"/api": {8}}},
+		{"hnone", map[string][]int{"/api": {}}}, {"hwx", map[string][]int{"/api": {2, 4, 8}, "/api/tasks/x": {4}}},
+		{"hrw-ping", map[string][]int{"/api/ping": {2, 4, 8}, "/api/tasks": {2}}},
+	}
+	for _, a := range shapes {
+		lines = append(lines, fmt.Sprintf("user %s pw-%s 0 %s", a.n, a.n, grantsToken(a.g)))
+	}
+	lines = append(lines, "user hroot pw-hroot 1 -")
+	paths := []string{"/kapacitor/v1/tasks", "/kapacitor/v1/tasks/x", "/kapacitor/v1/tasks/", "/kapacitor/v1preview/tasks/x", "/kapacitor/v1/ping", "/kapacitor/v1/nothing"}
+	basic := func(n string) string { return fmt.Sprintf("basic,%s,%s,%%,%%,%%", kit.Esc(n), kit.Esc("pw-"+n)) }
+	// directed: each single-privilege account, every wire method, a header set naming ANOTHER method / URL / user
+	for _, a := range shapes {
+		for _, m := range httpMethods[:7] {
+			h := kit.Pick(r, headerSets)
+			lines = append(lines, fmt.Sprintf("httph 1 %s %s %s %s", m, kit.Esc(kit.Pick(r, paths[:4])), basic(a.n), headerToken(h)))
+		}
+	}
+	// every header set once on the method it could be meant for
+	for _, h := range headerSets {
+		m := "POST"
+		if r.Chance(1, 3) {
+			m = kit.Pick(r, httpMethods[:7])
+		}
+		lines = append(lines, fmt.Sprintf("httph 1 %s %s %s %s", m, kit.Esc(kit.Pick(r, paths[:4])), basic(kit.Pick(r, []string{"hwrite", "hwrite", "hread", "hwx"})), headerToken(h)))
+	}
+	// random: any configuration, method (also lower case / unknown), path, credential form, one or two header sets
+	for i := 0; i < 25; i++ {
+		ra := kit.Pick(r, []string{"1", "1", "1", "3", "0"})
+		h := append([][2]string{}, kit.Pick(r, headerSets)...)
+		if r.Chance(1, 4) {
+			h = append(h, kit.Pick(r, headerSets)...)
+		}
+		if r.Chance(1, 10) {
+			h = nil
+		}
+		c := basic(kit.Pick(r, shapes).n)
+		if r.Chance(1, 3) {
+			c = cred()
+		}
+		p := kit.Pick(r, paths)
+		if r.Chance(1, 8) {
+			p = kit.Pick(r, urlPaths)
+		}
+		lines = append(lines, fmt.Sprintf("httph %s %s %s %s %s", ra, kit.Pick(r, httpMethods), kit.Esc(p), c, headerToken(h)))
+	}
 	return lines
 }
 
